@@ -283,6 +283,63 @@ def c04(repo, res):
         for h in late:
             res.add(Finding("F6:order", rel, "getBH_level2", h.test, "the left-handed x flip is applied after pixel_agg: reducers such as min/max/std/ptp "
                             "do not commute with the sign change", h.lineno))
+    # ---- F7: the handedness flip is applied to every sensor, whatever its rotation state
+    parents = {}
+    for x in ast.walk(node):
+        for ch in ast.iter_child_nodes(x):
+            parents[id(ch)] = x
+    for h in hand:
+        p = parents.get(id(h))
+        chain = []
+        while p is not None and not isinstance(p, ast.For):
+            if isinstance(p, ast.If):
+                chain.append(norm(p.test))
+            p = parents.get(id(p))
+        loop = p
+        early = []
+        if loop is not None:
+            for x in ast.walk(loop):
+                if isinstance(x, (ast.Continue, ast.Break)) and x.lineno < h.lineno:
+                    early.append(x)
+        ok7 = not chain and not early and loop is not None
+        res.ob("F7:handedness flip reached for every sensor", ok7, {"rule": "F7", "enclosing_conditions": chain, "early_loop_exits_before_it": len(early)})
+        if not ok7:
+            res.add(Finding("F7:skipped-flip", rel, "getBH_level2", h.test, "the left-handed x flip is not reached for every sensor "
+                            f"(nested under {chain} / after {len(early)} `continue`/`break`): e.g. unrotated left-handed sensors would stay right-handed", h.lineno))
+    # ---- F8: every block of pixels goes through the aggregator, whatever its size
+    for c in aggs:
+        p = parents.get(id(c))
+        conds = []
+        while p is not None and not isinstance(p, (ast.FunctionDef,)):
+            par = parents.get(id(p))
+            if isinstance(p, ast.IfExp):
+                conds.append(norm(p.test))
+            if isinstance(p, ast.comprehension):
+                conds += [norm(i) for i in p.ifs]
+            if isinstance(p, ast.If) and ("shape" in ast.unparse(p.test) or "len(" in ast.unparse(p.test) or "size" in ast.unparse(p.test)):
+                conds.append(norm(p.test))
+            p = par
+        conds = [t for t in conds if "shape" in t or "len(" in t or "size" in t or "ndim" in t]
+        res.ob(f"F8:pixel aggregation unconditional:{c.lineno}", not conds, {"rule": "F8", "call": norm(c), "size_conditions": conds})
+        if conds:
+            res.add(Finding("F8:conditional-agg", rel, "getBH_level2", c, f"pixel_agg is bypassed depending on the block size ({conds}): reducers such as "
+                            "std/var/ptp of a single pixel are not the pixel value", c.lineno))
+    # ---- F9: a constant path index on a pose path is only legitimate where staticness was established (or as the last-entry padding)
+    for x in ast.walk(node):
+        if isinstance(x, ast.Subscript) and isinstance(x.value, ast.Attribute) and x.value.attr in ("_orientation", "_position") and \
+                isinstance(x.slice, (ast.Constant, ast.UnaryOp)) and isinstance(x.ctx, ast.Load):
+            idx = ast.unparse(x.slice)
+            p = parents.get(id(x))
+            guards = []
+            while p is not None:
+                if isinstance(p, ast.If):
+                    guards.append(norm(p.test))
+                p = parents.get(id(p))
+            ok9 = idx == "-1" or any("static" in g for g in guards)
+            res.ob(f"F9:{norm(x)}", ok9, {"rule": "F9", "use": norm(x), "guards": guards})
+            if not ok9:
+                res.add(Finding("F9:constant-path-index", rel, "getBH_level2", x, f"path entry {idx} of a pose path is used for every path step without a "
+                                "staticness guard: on a rotating/moving path the other entries are ignored", x.lineno))
     # ---- F5 path predicates
     n5 = path_quantifier_rule(res, node, rel, "getBH_level2")
     arepo = ARepo(common.REPO)
